@@ -89,3 +89,33 @@ Proof.
     exists a, b. now rewrite !wildcard_match_spec.
   - intros (a & b & -> & Ha & Hb). rewrite wildcard_match_spec in Ha, Hb. now apply glob_app.
 Qed.
+
+(* Generalising a pattern never loses a match: replacing any one pattern character by `*` keeps every text matched. *)
+Lemma glob_head_to_star c b t : Glob (c :: b) t -> Glob (star :: b) t.
+Proof.
+  intro H. inversion H as [|p0 u0 t0 H0|c0 p0 t0 Hc H0]; subst.
+  - now constructor.
+  - change (c :: t0) with ([c] ++ t0). now constructor.
+Qed.
+
+Theorem widen_to_star a c b t :
+  wildcard_match (a ++ c :: b) t = true -> wildcard_match (a ++ star :: b) t = true.
+Proof.
+  rewrite !concat_pattern. intros (t1 & t2 & -> & H1 & H2). exists t1, t2. repeat split; [exact H1|].
+  rewrite wildcard_match_spec in *. now apply glob_head_to_star with c.
+Qed.
+
+(* every non-`*` pattern character consumes one text character: a match is at least as long as the literal part *)
+Definition literals (p : list N) : list N := filter (fun c => negb (N.eqb c star)) p.
+
+Lemma glob_literals_le p t : Glob p t -> (length (literals p) <= length t)%nat.
+Proof.
+  intro H. induction H as [|p u t _ IH|c p t Hc _ IH]; unfold literals in *; cbn [filter length].
+  - lia.
+  - rewrite N.eqb_refl. cbn [negb]. rewrite app_length. lia.
+  - destruct (N.eqb_spec c star) as [E|_]; [contradiction|]. cbn [negb length]. lia.
+Qed.
+
+Theorem match_at_least_literals p t :
+  wildcard_match p t = true -> (length (literals p) <= length t)%nat.
+Proof. rewrite wildcard_match_spec. apply glob_literals_le. Qed.
